@@ -41,7 +41,15 @@ fn run_scenario(line: &str) -> Vec<String> {
             // (sus MODE AVIEW (G ...)): one of the suspense renders of suspense.rs inside a sequence
             let res = panic::catch_unwind(AssertUnwindSafe(|| suspense::run_one(r[1].atom(), &r[2], &r[3])));
             match res {
-                Ok((lines, n, sc)) => out.push(format!("{} n={} sc={},{}", lines.join("|").replace(' ', "_"), n, sc.0, sc.1)),
+                // after=: live nodes in the render's root once the render has FINISHED (blocking: returned; streaming: stream ended); - otherwise
+                Ok((lines, n, sc, after)) => out.push(format!(
+                    "{} n={} sc={},{} after={}",
+                    lines.join("|").replace(' ', "_"),
+                    n,
+                    sc.0,
+                    sc.1,
+                    after.map(|a| a.to_string()).unwrap_or_else(|| "-".to_string())
+                )),
                 Err(_) => {
                     out.push("PANIC".to_string());
                     break;
